@@ -77,7 +77,34 @@ theorem gen_plumb_correct (config : RouterConfig) :
     ∀ site ∈ sites, ∀ o ∈ opens, Gen.effective site o config = Gen.Spec config := by
   intro site hs o ho
   simp only [sites, opens, List.mem_cons, List.not_mem_nil, or_false] at hs ho
-  rcases hs with rfl | rfl | rfl <;> rcases ho with rfl | rfl <;> rfl
+  rcases hs with rfl | rfl | rfl <;> rcases ho with rfl | rfl <;>
+    (simp only [Gen.effective, Gen.Spec, Gen.applyFactory, Option.map, soRcvBuf, soSndBuf, requested,
+      site0_makeDataPlane, site1_AddExternalInterface, site2_AddNextHop, open_newConnectedLink,
+      open_NewInternalLink, newProvider, newConnectorRunConfig]
+     by_cases hr : config.ReceiveBufferSize = 0 <;> by_cases hs : config.SendBufferSize = 0 <;>
+       simp [hr, hs])
+
+/-- the direction of a buffer-size socket option -/
+def optIsReceive : String → Option Bool
+  | "SO_RCVBUF" => some true
+  | "SO_RCVBUFFORCE" => some true
+  | "SO_SNDBUF" => some false
+  | "SO_SNDBUFFORCE" => some false
+  | _ => none
+
+open Scion.Gen.Plumb in
+/-- **T3.** Every call of `initConnUDP` that sets a buffer-size option (plain, forced, retried …)
+sets a *receive* option from `cfg.ReceiveBufferSize` inside the `cfg.ReceiveBufferSize != 0`
+block, or a *send* option from `cfg.SendBufferSize` inside the `cfg.SendBufferSize != 0` block;
+and both directions are set at least once. -/
+theorem gen_sockopt_calls :
+    bufSetCalls.all (fun (g, _, opt, field) =>
+      g == field &&
+      (optIsReceive opt == some (field == "ReceiveBufferSize")) &&
+      (field == "ReceiveBufferSize" || field == "SendBufferSize")) = true ∧
+    bufSetCalls.any (fun (_, _, opt, _) => optIsReceive opt == some true) = true ∧
+    bufSetCalls.any (fun (_, _, opt, _) => optIsReceive opt == some false) = true := by
+  decide
 
 open Scion.Gen.Plumb in
 /-- **T3.** The shape the model was written against: three call sites (construction, external
@@ -104,7 +131,13 @@ theorem gen_eq_model (config : RouterConfig) (s : Plumb.Site) (o : Plumb.OpenSit
                   config.SendBufferSize⟩)).soSndBuf) := by
   intro site hs op ho
   simp only [sites, opens, List.mem_cons, List.not_mem_nil, or_false] at hs ho
-  rcases hs with rfl | rfl | rfl <;> rcases ho with rfl | rfl <;> cases s <;> cases o <;> rfl
+  rcases hs with rfl | rfl | rfl <;> rcases ho with rfl | rfl <;> cases s <;> cases o <;>
+    (simp only [Gen.effective, Gen.applyFactory, Option.map, soRcvBuf, soSndBuf, requested,
+      site0_makeDataPlane, site1_AddExternalInterface, site2_AddNextHop, open_newConnectedLink,
+      open_NewInternalLink, newProvider, newConnectorRunConfig, Plumb.sockOpts, Plumb.plumb,
+      Plumb.siteArgs, Plumb.openConfig, Plumb.newProvider]
+     by_cases hr : config.ReceiveBufferSize = 0 <;> by_cases hs : config.SendBufferSize = 0 <;>
+       simp [hr, hs])
 
 /-! ### non-vacuity -/
 
@@ -113,6 +146,6 @@ send 2222 arrive as receive 1111 and send 2222 -/
 example : (Plumb.plumb .addNextHop .connectedLink ⟨64, 1111, 2222⟩) = ⟨2222, 1111⟩ := rfl
 
 example : Gen.effective Scion.Gen.Plumb.site0_makeDataPlane Scion.Gen.Plumb.open_NewInternalLink
-    ⟨1, 1, 64, 1111, 0⟩ = some (some 1111, none) := rfl
+    ⟨1, 1, 64, 1111, 0⟩ = some (some 1111, none) := by decide
 
 end Scion.C17
